@@ -35,11 +35,14 @@ def modcache():
     rc, out = sh(['go', 'env', 'GOMODCACHE'], env=go_env())
     return out.strip() or '/root/go/pkg/mod'
 
-def write_overlay(extra_inpkg):
-    """overlay.json: harness files added INTO package netpoll / mux, instrumented mcache over the module cache."""
+def write_overlay(extra_inpkg, replacements=None):
+    """overlay.json: harness files added INTO package netpoll / mux, instrumented mcache over the module cache;
+    replacements: repo-relative path -> absolute file that replaces it (e.g. an instrumented copy)."""
     rep = {}
     for src, dst in extra_inpkg.items():
         rep[os.path.join(REPO, dst)] = os.path.join(GO, src)
+    for rel, path in (replacements or {}).items():
+        rep[os.path.join(REPO, rel)] = path
     rep[os.path.join(modcache(), 'github.com/bytedance/gopkg@v0.1.1/lang/mcache/mcache.go')] = os.path.join(GO, 'pool/mcache.go')
     path = os.path.join(WORK, 'overlay.json')
     json.dump({'Replace': rep}, open(path, 'w'), indent=1)
@@ -56,24 +59,24 @@ def inpkg_files():
                     m[d + '/' + f] = sub + 'zz_verif_' + f
     return m
 
-def build_harness(name, race=False, tags='verif'):
+def build_harness(name, race=False, tags='verif', replacements=None):
     """(re)build go/cmd/<name> against /repo's current working tree with hooks on."""
     with Lock('go'):
         os.makedirs(BIN, exist_ok=True)
         sum_src = os.path.join(REPO, 'go.sum')
         if os.path.exists(sum_src):
             open(os.path.join(GO, 'go.sum'), 'w').write(open(sum_src).read())
-        ov = write_overlay(inpkg_files())
+        ov = write_overlay(inpkg_files(), replacements)
         out = os.path.join(BIN, name + ('-race' if race else ''))
         if os.path.exists(out):
             os.remove(out)
         cmd = ['go', 'build', '-tags', tags, '-overlay', ov, '-o', out]
         if REPO != '/repo':
-            # scratch worktree of netpoll (mutation tests): same module file with the replace directive redirected
+            # VERIF_REPO: same harness module, but `replace netpoll => <scratch worktree>` (go/go.mod itself stays untouched)
             mf = os.path.join(WORK, 'go.alt.mod')
             open(mf, 'w').write(open(os.path.join(GO, 'go.mod')).read().replace('=> /repo', '=> ' + REPO))
             open(os.path.join(WORK, 'go.alt.sum'), 'w').write(open(os.path.join(GO, 'go.sum')).read())
-            cmd += ['-modfile', mf]
+            cmd.append('-modfile=' + mf)
         if race:
             cmd.append('-race')
             e = go_env(); e['CGO_ENABLED'] = '1'
@@ -83,17 +86,40 @@ def build_harness(name, race=False, tags='verif'):
         rc, o = sh(cmd, cwd=GO, env=e, timeout=600)
         return (out if rc == 0 else None), o
 
+def extract_exe():
+    """(path or None, message): go/bin/extract, rebuilt when missing or older than any tools/extract/*.go. Call under Lock('gen')."""
+    exe = os.path.join(BIN, 'extract')
+    d = os.path.join(VERIF, 'tools/extract')
+    newest = max(os.path.getmtime(os.path.join(d, f)) for f in os.listdir(d) if f.endswith('.go') or f in ('go.mod', 'go.sum'))
+    if not os.path.exists(exe) or os.path.getmtime(exe) < newest:
+        os.makedirs(BIN, exist_ok=True)
+        rc, o = sh(['go', 'build', '-o', exe, '.'], cwd=d, env=go_env(), timeout=600)
+        if rc != 0:
+            return None, 'extract build failed:\n' + o
+    return exe, ''
+
+def instrument_shard():
+    """C17: instrumented copy of REPO/mux/shard_queue.go (schedule-point hooks at the sites of Gen/Shard.lean).
+    Returns (path or None, message); None when the source has a shape the instrumenter does not support."""
+    with Lock('gen'):
+        exe, msg = extract_exe()
+        if exe is None:
+            return None, msg
+        os.makedirs(WORK, exist_ok=True)
+        dst = os.path.join(WORK, 'shard_queue_instr.go')
+        if os.path.exists(dst):
+            os.remove(dst)
+        rc, o = sh([exe, '-repo', REPO, '-instr-shard', dst], env=go_env(), timeout=300)
+        if rc != 0 or not os.path.exists(dst):
+            return None, 'instr-shard failed (rc=%d):\n%s' % (rc, o)
+        return dst, o
+
 def regen():
     """T-gen: regenerate lean/Netpoll/Gen/*.lean and work/facts.json from /repo's working tree."""
     with Lock('gen'):
-        exe = os.path.join(BIN, 'extract')
-        srcdir = os.path.join(VERIF, 'tools/extract')
-        newest = max(os.path.getmtime(os.path.join(srcdir, f)) for f in os.listdir(srcdir) if f.endswith('.go'))
-        if not os.path.exists(exe) or os.path.getmtime(exe) < newest:
-            os.makedirs(BIN, exist_ok=True)
-            rc, o = sh(['go', 'build', '-o', exe, '.'], cwd=os.path.join(VERIF, 'tools/extract'), env=go_env(), timeout=600)
-            if rc != 0:
-                return False, 'extract build failed:\n' + o
+        exe, msg = extract_exe()
+        if exe is None:
+            return False, msg
         gen = os.path.join(LEAN, 'Netpoll/Gen')
         tmp = os.path.join(WORK, 'gen.tmp'); os.makedirs(tmp, exist_ok=True)
         for f in os.listdir(tmp): os.remove(os.path.join(tmp, f))
